@@ -36,8 +36,15 @@ Inductive flavour := Redoc | RapiDoc | SwaggerUI | OAuth2Callback.
 
 Record ui_opts := mkUI {
   u_base : bytes; u_path : bytes; u_spec_url : bytes; u_title : bytes;
-  u_oauth_cb : bytes                               (* SwaggerUIOpts.OAuthCallbackURL; unused by Redoc and RapiDoc *)
+  u_oauth_cb : bytes;                              (* SwaggerUIOpts.OAuthCallbackURL; unused by Redoc and RapiDoc *)
+  u_assets : list bytes                            (* the flavour's own options, in struct order: RedocURL | RapiDocURL |
+                                                      SwaggerURL, SwaggerPresetURL, SwaggerStylesURL, Favicon32, Favicon16.
+                                                      They are printed into the page and used nowhere else. *)
 }.
+
+Definition with_assets (o : ui_opts) (l : list bytes) : ui_opts :=
+  {| u_base := u_base o; u_path := u_path o; u_spec_url := u_spec_url o; u_title := u_title o;
+     u_oauth_cb := u_oauth_cb o; u_assets := l |}.
 
 Definition docs : bytes := [100;111;99;115].                                           (* docs *)
 Definition default_spec_url : bytes := slash :: swagger_json.                         (* /swagger.json *)
@@ -55,7 +62,8 @@ Definition ensure_defaults (o : ui_opts) : ui_opts :=
   {| u_base := b; u_path := p;
      u_spec_url := or_default (u_spec_url o) default_spec_url;
      u_title := or_default (u_title o) default_title;
-     u_oauth_cb := or_default (u_oauth_cb o) (path_join [b; p; oauth2_callback]) |}.
+     u_oauth_cb := or_default (u_oauth_cb o) (path_join [b; p; oauth2_callback]);
+     u_assets := u_assets o                        (* an empty one becomes the CDN default: a constant, not modelled *) |}.
 
 (* the path a flavour answers on. The OAuth2 callback uses the configured URL as it is (not cleaned). *)
 Definition ui_path (f : flavour) (o : ui_opts) : bytes :=
@@ -111,7 +119,8 @@ Definition api_ui_opts (a : api_in) : ui_opts :=
      u_path := opt_or (a_o_path a) [];
      u_spec_url := opt_or (a_o_spec_url a) [];
      u_title := opt_or (a_o_title a) (a_spec_title a);
-     u_oauth_cb := [] |}.
+     u_oauth_cb := [];
+     u_assets := [] |}.                            (* the API handlers copy the common options only *)
 
 (* ... and the path the Spec middleware is given: directory and document of the path component of SpecURL *)
 Definition api_spec_path (a : api_in) : bytes :=
@@ -121,6 +130,13 @@ Definition api_spec_path (a : api_in) : bytes :=
 
 (* the location the served page tells the browser to load the spec from *)
 Definition api_spec_ref (a : api_in) : bytes := u_spec_url (ensure_defaults (api_ui_opts a)).
+
+(* bytes a URL keeps as they are wherever it is written (letters, digits, / . _ ~ : -): a spec URL made of these is
+   found in the page literally; any other one is compared through the request a browser makes for it *)
+Definition url_safe_byte (c : nat) : bool :=
+  (Nat.leb 97 c && Nat.leb c 122) || (Nat.leb 65 c && Nat.leb c 90) || (Nat.leb 45 c && Nat.leb c 58) ||
+  Nat.eqb c 95 || Nat.eqb c 126.
+Definition url_safe (s : bytes) : bool := forallb url_safe_byte s.
 
 Inductive api_outcome := ASpec | AUI | ARouter.
 
